@@ -158,7 +158,10 @@ pub fn worker_main(args: &[String]) {
             sum.runs += 1;
             *sum.outcomes.entry("hung".into()).or_default() += 1;
             let v = Violation::new(&prop, "hang-watchdog", format!("the run did not finish within {:?} of wall-clock without reaching a scheduling point (a loop that never blocks, reads the disk or takes a lock)", minimize::watchdog()));
-            let liveness_prop = matches!(prop.as_str(), "C08" | "C16");
+            let liveness_prop = matches!(prop.as_str(), "C08" | "C16") && !report.blocked_unshimmed;
+            if report.blocked_unshimmed {
+                sum.harness_errors.push(format!("run {index}: blocked on a primitive the simulator does not own (not a verdict)"));
+            }
             if liveness_prop {
                 let path = replays_dir().join(format!("{prop}-hang-watchdog-{seed:016x}.json"));
                 let file = ReplayFile { violation: Some(v.clone()), note: "not minimised: the run never returns".into(), ..wal_file.clone() };
